@@ -319,6 +319,7 @@ def oracle(sch, txs, io, mo):
 def _oracle(sch, txs, io, mo):
     out = []
     prev = []
+    full_txs = txs
     for k, a in enumerate(io):
         if a["commit"]:
             mp = misplaced_index_oracle(sch, a["facts"], a.get("other", ()))
@@ -350,6 +351,13 @@ def _oracle(sch, txs, io, mo):
             if bd:
                 out.append(("C03:duplicate-error-without-duplicate", "; ".join(bd), k))
                 break
+        pan = [t for t in a.get("other", ()) if t.startswith("OPPANIC:")]
+        if pan:
+            # store_c03s.go c03RunHistory: the transaction after this one made the code under test panic; the index oracles
+            # above found nothing wrong in the state it started in
+            out.append(("C03:operation-panics", "the next transaction of the history (%s) panics inside boltz: %s" % (
+                " ".join(full_txs[k + 1])[:300] if k + 1 < len(full_txs) else "cut from the case", _unhex(pan[0][8:])[:300]), k))
+            break
         prev = a["facts"]
     return out
 
@@ -363,8 +371,9 @@ def _minimal_prefix(c):
         if isinstance(replay_obj, dict) and "case" in replay_obj and isinstance(replay_obj.get("tx"), int):
             k = replay_obj["tx"]
             parts = replay_obj["case"].split(" TX ")
-            if len(parts) > k + 2:
-                replay_obj = dict(replay_obj, full_case=replay_obj["case"], case=" TX ".join(parts[:k + 2]))
+            keep = k + 3 if key.endswith(":operation-panics") else k + 2  # the panicking transaction stays in the replay
+            if len(parts) > keep:
+                replay_obj = dict(replay_obj, full_case=replay_obj["case"], case=" TX ".join(parts[:keep]))
                 for side in ("impl", "model"):
                     segs = replay_obj.get(side, "").split(" | ")
                     replay_obj[side] = " | ".join(segs[:k + 1]) + " | "
@@ -374,19 +383,23 @@ def _minimal_prefix(c):
 
 
 def _family_wirings_in_sync(c):
-    """the family schemas of Examples/C03Wirings.v (wf_* checked there by computation) are the text the harness prints
-    from the wirings it runs (store_c03f.go c03fCoqText, left in the work directory by every store_c03s run)"""
+    """the family / bare-child schemas of Examples/C03Wirings.v (wf_* checked there by computation) are the text the
+    harness prints from the wirings it runs (store_c03f.go c03fCoqText, store_c03b.go c03bCoqText, left in the work
+    directory by every store_c03s run)"""
     import os
-    gen = os.path.join(c.work, "c03f_wirings.v")
-    if c.replay or not os.path.exists(gen):
+    if c.replay:
         return None
     text = open(os.path.join(vlib.VERIF, "coq", "theories", "Examples", "C03Wirings.v")).read()
-    a, b = "(* BEGIN generated by storageharness store_c03f_coq *)\n", "(* END generated by storageharness store_c03f_coq *)"
-    if a not in text or b not in text:
-        return "Examples/C03Wirings.v has no generated section for the family wirings of store_c03f.go"
-    if text.split(a, 1)[1].split(b, 1)[0] != open(gen).read():
-        return ("the family schemas in Examples/C03Wirings.v differ from the wirings the harness runs (store_c03f.go): "
-                "regenerate the section with `storageharness store_c03f_coq`")
+    for fname, cmd, src in (("c03f_wirings.v", "store_c03f_coq", "store_c03f.go"), ("c03b_wirings.v", "store_c03b_coq", "store_c03b.go")):
+        gen = os.path.join(c.work, fname)
+        if not os.path.exists(gen):
+            continue
+        a, b = "(* BEGIN generated by storageharness %s *)\n" % cmd, "(* END generated by storageharness %s *)" % cmd
+        if a not in text or b not in text:
+            return "Examples/C03Wirings.v has no generated section for the wirings of %s" % src
+        if text.split(a, 1)[1].split(b, 1)[0] != open(gen).read():
+            return ("the schemas in Examples/C03Wirings.v differ from the wirings the harness runs (%s): "
+                    "regenerate the section with `storageharness %s`" % (src, cmd))
     return None
 
 
@@ -425,7 +438,16 @@ def main(argv):
                         "through a child store; besides live and warm histories, systematic family histories create an entity through each store of "
                         "the family and delete it through each store of the family (or by the cascade), with an update in between, and create the same "
                         "unique values and set members again. The Coq schemas of these wirings (wf_unique_b / wf_cunique_b / wf_setidx_b by computation "
-                        "in Examples/C03Wirings.v) are printed by the harness and compared with that file on every run.",
+                        "in Examples/C03Wirings.v) are printed by the harness and compared with that file on every run. "
+                        "A further quarter of the histories (fifth random stream, store_c03b.go) draws every field value and set member from a universe "
+                        "built over ONE separator per history (comma, space, NUL, slash, nothing, ', ', colon, the type-tag bytes 01-07, newline, tab, "
+                        "0xff, ...): fragments a b c d, their joins over 2 and 3 neighbours, the separator alone and as a prefix - so different sets "
+                        "and unique-value pairs are re-groupings of one character sequence ({a<sep>b, c} vs {a, b<sep>c}: same size, same text under a "
+                        "join); regrouping histories replace the string lists (and a pair of unique values) of a populated entity by another grouping "
+                        "through field-restricted and full updates, regroup again, delete and re-create. Half of these histories run on wirings whose "
+                        "child stores (plain, Extended(), one without fields, one beside a sibling with an index, one family cascade-deleted from an "
+                        "owner) declare NO index or constraint while the parent carries unique and set indexes; family histories create / update / "
+                        "delete through each of them.",
                         command="store_c03s")
     stale = _family_wirings_in_sync(c)
     if stale:
